@@ -6,6 +6,7 @@ package main
 // the results have on that way and the facts that hold on it.
 
 import (
+	"go/token"
 	"go/types"
 
 	"golang.org/x/tools/go/ssa"
@@ -16,6 +17,7 @@ type retCase struct {
 	Vals  []ssa.Value // the results on this way (phis of the return block replaced by their incoming values)
 	Facts []Cmp       // dominating facts of the way (edge facts for an expanded phi)
 	At    ssa.Instruction
+	To    *ssa.BasicBlock // for a way into a joined return: the block the edge At.Block() -> To enters; nil for a plain return
 }
 
 func returnCases(f *ssa.Function) []retCase {
@@ -53,7 +55,7 @@ func expandCase(c retCase, b *ssa.BasicBlock, depth int) []retCase {
 		if len(pb.Instrs) == 0 {
 			continue
 		}
-		nc := retCase{Ret: c.Ret, Facts: edgeFacts(pb, b), At: pb.Instrs[len(pb.Instrs)-1]}
+		nc := retCase{Ret: c.Ret, Facts: edgeFacts(pb, b), At: pb.Instrs[len(pb.Instrs)-1], To: b}
 		nc.Vals = make([]ssa.Value, len(c.Vals))
 		for i, v := range c.Vals {
 			nc.Vals[i] = v
@@ -175,4 +177,152 @@ func chanCloseOf(p *Prog, call *ssa.Call) (src ssa.Value, all bool, ok bool) {
 		return arg, isChanSlice, true
 	}
 	return nil, false, false
+}
+
+// isMaxCell: v is a load of a local cell (a named result or a captured variable) that holds a running maximum: every
+// store into the cell is a constant (the start) or a value that the dominating branch showed to be greater than (or
+// not smaller than) what the cell held - `if x > m { m = x }` with m in memory.
+func isMaxCell(p *Prog, v ssa.Value) bool {
+	ld, ok := v.(*ssa.UnOp)
+	if !ok || ld.Op != token.MUL {
+		return false
+	}
+	cell, ok := ld.X.(*ssa.Alloc)
+	if !ok {
+		return false
+	}
+	guarded := 0
+	for _, ref := range *cell.Referrers() {
+		st, ok := ref.(*ssa.Store)
+		if !ok || st.Addr != ssa.Value(cell) {
+			continue
+		}
+		if _, isConst := st.Val.(*ssa.Const); isConst {
+			continue
+		}
+		x := unconv(st.Val)
+		if !hasFact(st, func(cm Cmp) bool {
+			if (cm.Op != ">" && cm.Op != ">=") || cm.Y == nil {
+				return false
+			}
+			if unconv(cm.X) != x && !sameReRead(p, unconv(cm.X), x) {
+				return false
+			}
+			old, isLd := unconv(cm.Y).(*ssa.UnOp)
+			return isLd && old.Op == token.MUL && old.X == ssa.Value(cell)
+		}) {
+			// max(cell, x) through the builtin
+			if call, isCall := st.Val.(*ssa.Call); isCall {
+				if bi, isBi := call.Call.Value.(*ssa.Builtin); isBi && bi.Name() == "max" {
+					guarded++
+					continue
+				}
+			}
+			return false
+		}
+		guarded++
+	}
+	return guarded > 0
+}
+
+// resultMayAlias: can what the module function g returns give access to the bytes reachable from its idx-th parameter?
+// A value-flow closure inside g from the parameter: re-slices, phis, interface boxes, field/element addresses, loads of
+// aliasing types, Buffer.Bytes/Next, append to it, any other call that returns an aliasing type (module callees one
+// level further down by the same analysis); copies (bytes.Clone, string conversions, sanitizers) end the flow. A
+// store into memory that is not a local cell, a send or a goroutine also count as "may alias" (conservative).
+func resultMayAlias(p *Prog, g *ssa.Function, idx, depth int) bool {
+	if g == nil || len(g.Blocks) == 0 || idx >= len(g.Params) || depth > 2 {
+		return true
+	}
+	taint := map[ssa.Value]bool{g.Params[idx]: true}
+	work := []ssa.Value{g.Params[idx]}
+	add := func(v ssa.Value) {
+		if v != nil && !taint[v] {
+			taint[v] = true
+			work = append(work, v)
+		}
+	}
+	for len(work) > 0 {
+		v := work[0]
+		work = work[1:]
+		refs := v.Referrers()
+		if refs == nil {
+			continue
+		}
+		for _, ref := range *refs {
+			switch x := ref.(type) {
+			case *ssa.Return:
+				return true
+			case *ssa.Send, *ssa.Go, *ssa.MapUpdate, *ssa.MakeClosure:
+				return true
+			case *ssa.Store:
+				if x.Val != v {
+					continue
+				}
+				if al, ok := x.Addr.(*ssa.Alloc); ok {
+					add(al)
+				} else if base := rootAlloc(x.Addr); base != nil {
+					add(base)
+				} else {
+					return true
+				}
+			case *ssa.Slice:
+				add(x)
+			case *ssa.Phi:
+				add(x)
+			case *ssa.MakeInterface:
+				add(x)
+			case *ssa.ChangeType:
+				add(x)
+			case *ssa.ChangeInterface:
+				add(x)
+			case *ssa.TypeAssert:
+				add(x)
+			case *ssa.Extract:
+				add(x)
+			case *ssa.FieldAddr:
+				add(x)
+			case *ssa.IndexAddr:
+				add(x)
+			case *ssa.UnOp:
+				if x.Op == token.MUL && canAlias(x.Type()) {
+					add(x)
+				}
+			case *ssa.Call:
+				if isSanitizer(p, x) {
+					continue
+				}
+				obj := p.CalleeObj(x)
+				if obj != nil && obj.Pkg() != nil && obj.Pkg().Path() == "bytes" && len(x.Call.Args) > 0 && x.Call.Args[0] == v {
+					if isBufferMethod(obj, "Bytes") || isBufferMethod(obj, "Next") || isBufferMethod(obj, "AvailableBuffer") {
+						add(x)
+					}
+					continue
+				}
+				if bi, ok := x.Call.Value.(*ssa.Builtin); ok {
+					if bi.Name() == "append" && len(x.Call.Args) > 0 && x.Call.Args[0] == v {
+						add(x)
+					}
+					continue
+				}
+				if !canAlias(x.Type()) {
+					continue
+				}
+				if h := x.Call.StaticCallee(); h != nil && p.InModule(h) && len(h.Blocks) > 0 {
+					aliases := false
+					for ai, a := range x.Call.Args {
+						if a == v && resultMayAlias(p, h, ai, depth+1) {
+							aliases = true
+						}
+					}
+					if aliases {
+						add(x)
+					}
+					continue
+				}
+				add(x)
+			}
+		}
+	}
+	return false
 }
